@@ -692,73 +692,9 @@ func obsTerm(in c14In, o c14Out) string {
 
 // ---------------------------------------------------------------- known-finding domains
 
-func kfTags(in c14In) []string {
-	var tags []string
-	switch in.Kind {
-	case "stack":
-		if in.MaxVal <= 0 {
-			tags = append(tags, "kf:C14-bar-zero-max")
-		}
-		neg := false
-		var pos int64
-		for _, v := range in.Vs {
-			if v < 0 {
-				neg = true
-			} else {
-				pos += v
-			}
-		}
-		if neg && in.MaxVal > 0 && pos > in.MaxVal {
-			tags = append(tags, "kf:C14-stacked-negative")
-		}
-	case "barg":
-		// stacked bars whose running maximum is <= 0 when a bar is drawn
-		if in.Stacked {
-			var mx int64
-			for _, op := range in.BOps {
-				if op.Foot {
-					continue
-				}
-				var sum int64
-				for _, v := range op.Vals {
-					sum += v
-				}
-				if sum > mx {
-					mx = sum
-				}
-				if mx <= 0 && len(op.Vals) > 0 {
-					tags = append(tags, "kf:C14-bar-zero-max")
-					break
-				}
-			}
-		}
-	case "histo":
-		for _, op := range in.HOps {
-			if op.Kind == "line" && op.N == in.MaxLines {
-				tags = append(tags, "kf:C14-histo-line-bound")
-				break
-			}
-		}
-	case "spark":
-		if in.CLim == 0 {
-			for _, st := range statesOf(in) {
-				if len(st.Rows) > 0 && in.RLim > 0 {
-					tags = append(tags, "kf:C14-spark-no-columns")
-					break
-				}
-			}
-		}
-	case "heat":
-		if kfHeader(in) {
-			tags = append(tags, "kf:C14-header-empty-key")
-		}
-	case "scale":
-		if in.Mx == in.Mn && in.Mn == math.MaxInt64 {
-			tags = append(tags, "kf:C14-scale-maxint")
-		}
-	}
-	return tags
-}
+// All six C14 findings are repaired in /repo (fix: commits); their inputs stay in the fixed
+// cases, the corpus and the random generators and must pass, so no case carries a kf: tag.
+func kfTags(in c14In) []string { return nil }
 
 // ---------------------------------------------------------------- case construction
 
@@ -1360,9 +1296,11 @@ func fixedCases() []c14In {
 
 func c14Gen(r *Rng, n int, tier string) []Case {
 	var cases []Case
-	hangBudget := 3
+	// inputs on which the pinned WriteHeader did not return run in a child process (2 s each if
+	// that defect ever comes back): bounded per run
+	hangBudget := 12
 	if tier == "thorough" {
-		hangBudget = 8
+		hangBudget = 40
 	}
 	add := func(in c14In) {
 		if kfHeader(in) {
